@@ -186,7 +186,7 @@ def run_comment_raw(P, rep, rule="R-BLOCKBODY"):
 
 def run_escape_closer(P, rep, rule="R-BLOCKBODY"):
     """escape_liquid closes the block only on an end tag WITHOUT further tokens (`{% endraw x %}` inside a raw body is text)."""
-    fns = [f for f in P.fns.values() if f.key == "<liquid_core::parser::parser::TagBlock>::escape_liquid"]
+    fns = P.by_key("<liquid_core::parser::parser::TagBlock>::escape_liquid")
     if len(fns) != 1:
         rep.anchor_missing(rule, "TagBlock::escape_liquid")
         return
